@@ -1151,11 +1151,11 @@ class PredFlow:
                 per_edge = None
                 labels = {}
                 for a in t["arms"]:
-                    labels[a["bb"]] = self.cs(subj, a.get("variant", a["v"]))
+                    labels[a["bb"]] = self._cls(subj, a.get("variant", a["v"]))
                 if len(rest) == 1:
-                    oth = self.cs(subj, rest[0])
+                    oth = self._cls(subj, rest[0])
                 elif rest:
-                    cl = {self.cs(subj, r) for r in rest}
+                    cl = {self._cls(subj, r) for r in rest}
                     oth = cl.pop() if len(cl) == 1 else None
                 else:
                     oth = None
@@ -1185,6 +1185,30 @@ class PredFlow:
         for n in body.succ(b, True):
             out.append((n, K, env))
         return out
+
+    def _cls(self, subj, variant, depth=0):
+        """What taking the `variant` edge of a match on `subj` says about P."""
+        subj = strip_sym(subj)
+        if not isinstance(subj, tuple) or not subj or depth > 6:
+            return None
+        if subj[0] == "phi":
+            out = "B"
+            for alt in subj[1]:
+                c = self._cls(alt, variant, depth + 1)
+                out = self._join(out, c if c is not None else "T")
+            return out
+        if subj[0] == "agg" and subj[2] is not None and isinstance(variant, str):
+            return "T" if subj[2] == variant else "B"  # a literal Some(..)/None/Ok(..)/Err(..)
+        if subj[0] == "call" and isinstance(subj[1], str) and variant in ("Some", "None"):
+            if path_is(subj[1], "bool::then_some") or path_is(subj[1], "bool::then"):
+                w = self.cb(strip_sym(subj[2][0]))
+                if w:
+                    return w[0] if variant == "Some" else w[1]
+            # Option combinators that keep Some-ness: x.map(..), x.filter is not one of them
+            if path_is(subj[1], "Option<T>::map") or path_is(subj[1], "Option<T>::as_ref") or path_is(subj[1], "Option<T>::as_mut") or path_is(subj[1], "Result<T, E>::ok"):
+                inner_variant = variant if not path_is(subj[1], "Result<T, E>::ok") else {"Some": "Ok", "None": "Err"}[variant]
+                return self._cls(subj[2][0], inner_variant, depth + 1)
+        return self.cs(subj, variant)
 
     def _bool_rv(self, rv, env, K):
         k = rv["k"]
